@@ -8,6 +8,11 @@ CLAIMED = {
    note="Trusts: the oracle's own recount (LF count, char boundaries, leading space/tab count) and proptest. Indent of lines that begin inside a multi-line token and tokens after the first Error token are not judged (the statement does not define them).",
    design="§4 C09"),
 }
+CLAIMED["C06"] = dict(
+   technique="mutation-neighbourhood + proptest token soups/noise and a bounded-exhaustive boundary-value sweep of every core-library entry point, in isolated processes with panic/abort capture (fuzzing-style robustness testing)",
+   text="Exploration: corpus texts, a seeded 12% (quick) / complete (thorough) single-token mutation neighbourhood, token soups and UTF-8 noise go through compile, format (3 option sets), error rendering and a sandboxed 50 ms run; every callable of the live prelude is applied to ALL argument tuples of arity <= 2 from a 55-value boundary pool (fresh values per call) plus a seeded arity-3 sample. Any panic, abort or unexplained hang is a violation unless it matches a listed known finding by panic site. Cannot show absence of panics beyond the explored inputs.",
+   note="Overflow checks are ON in the engine build (as in the repository's own test profile): arithmetic overflow panics count. Allocation failure / capacity overflow / native stack overflow and hangs of natively spinning calls are counted as resource events, not judged. File/process functions are removed from the prelude.",
+   design="§4 C06")
 NOT_YET = {}
 props=[json.loads(l) for l in open('/verif/properties.jsonl')]
 checks=[]; na=[]
